@@ -1,6 +1,7 @@
 package main
 
 import (
+	"strings"
 	"fmt"
 	"go/token"
 	"go/types"
@@ -109,6 +110,19 @@ func (fg *FnGen) instr(ins ssa.Instruction) {
 		fg.closures[x] = x
 		c := fg.fresh("closure", SInt)
 		fg.bind(x, &Val{T: x.Type(), L: []Term{c}})
+		if !closureOnlyCalledHere(x) {
+			for _, b := range x.Bindings {
+				if al, ok := b.(*ssa.Alloc); ok {
+					if bv, ok := fg.vals[al]; ok && len(bv.L) == 1 {
+						if pfx, ok := fg.privateRefs[bv.L[0].S]; ok {
+							if esc, ok := fg.semiPriv[pfx]; ok {
+								fg.set(esc, TTrue)
+							}
+						}
+					}
+				}
+			}
+		}
 	case *ssa.Call:
 		r := fg.call(x, &x.Call)
 		if r != nil {
@@ -194,6 +208,14 @@ func (fg *FnGen) newRef() Term {
 	ref := fg.fresh("ref", SInt)
 	fg.assertRaw(Eq(ref, a))
 	fg.set("$alloc", Add(a, IntLit(1)))
+	// a mutex inside an object that did not exist is not held by anybody
+	for _, comp := range fg.compOrder {
+		if strings.HasPrefix(comp, "held:") || strings.HasPrefix(comp, "rheld:") {
+			if fg.compSorts[comp] == ArrSort(SBool) {
+				fg.assume(Not(Select(fg.get(fg.cur, comp, ArrSort(SBool)), ref)))
+			}
+		}
+	}
 	return ref
 }
 
@@ -209,7 +231,18 @@ func (fg *FnGen) alloc(x *ssa.Alloc) {
 	}
 	// zero-initialise
 	prefix := typeKey(T)
-	if fg.isPrivateAlloc(x) {
+	if !fg.isPrivateAlloc(x) && fg.isSemiPrivateAlloc(x) {
+		// a captured variable whose address flows only into closures: nobody else can reach it before a closure
+		// binding it has been created and handed out. It lives in its own components; a ghost flag records the
+		// escape, and havocs of everything apply to it only once the flag is set.
+		prefix = "local!" + fg.fn.Name() + "!" + x.Name() + "!" + typeKey(T)
+		fg.bind(x, &Val{T: x.Type(), L: []Term{ref}})
+		fg.privateRefs[fg.vals[x].L[0].S] = prefix
+		esc := "ghost:$esc!" + x.Name()
+		fg.compSort(esc, SBool)
+		fg.set(esc, TFalse)
+		fg.semiPriv[prefix] = esc
+	} else if fg.isPrivateAlloc(x) {
 		// a local whose address never leaves this function (except into closures that are only called or
 		// deferred here): callees cannot reach it, so it lives in its own components
 		prefix = "local!" + fg.fn.Name() + "!" + x.Name() + "!" + typeKey(T)
@@ -337,6 +370,30 @@ func (fg *FnGen) unop(x *ssa.UnOp) {
 		nv := fg.vals[x]
 		fg.assume(fg.valFacts(nv))
 		fg.assume(fg.allocFacts(nv))
+		// a reference read from an object that existed at entry, out of a component that has not changed since
+		// entry, existed at entry
+		if l != nil && !l.Elem && len(nv.L) == len(layout(l.T)) {
+			for i, leaf := range layout(l.T) {
+				comp := fg.compName(l, leaf)
+				cv, ok1 := fg.cur.ver[comp]
+				ev, ok2 := fg.entry.ver[comp]
+				if !ok1 || !ok2 || cv.S != ev.S || leaf.Sort != SInt {
+					continue
+				}
+				isRef := leaf.Role == "arr"
+				if leaf.T != nil {
+					switch types.Unalias(leaf.T).Underlying().(type) {
+					case *types.Pointer, *types.Map, *types.Chan:
+						isRef = true
+					}
+				}
+				if isRef {
+					// only for objects that existed at entry: a callee declared `fresh` allocates and initialises
+					// objects without re-versioning the caller's components
+					fg.assume(Implies(Lt(l.Base, fg.allocEntry), Lt(nv.L[i], fg.allocEntry)))
+				}
+			}
+		}
 		fg.guardedLoad(l, x)
 	case token.NOT:
 		fg.bind(x, &Val{T: x.Type(), L: []Term{Not(fg.val(x.X).one())}})
@@ -748,6 +805,78 @@ func (fg *FnGen) panicInstr(x *ssa.Panic) {
 	if fg.safety("panic") {
 		fg.oblige("panic", "unreachable", TFalse, x.Pos(), "explicit panic is unreachable")
 	}
+}
+
+// closureOnlyCalledHere: the closure value is used only as the callee of calls/defers of this function.
+func closureOnlyCalledHere(x *ssa.MakeClosure) bool {
+	if x.Referrers() == nil {
+		return false
+	}
+	for _, cr := range *x.Referrers() {
+		switch c := cr.(type) {
+		case *ssa.Defer:
+			if c.Call.Value != ssa.Value(x) {
+				return false
+			}
+		case *ssa.Call:
+			if c.Call.Value != ssa.Value(x) {
+				return false
+			}
+		case *ssa.DebugRef:
+		default:
+			return false
+		}
+	}
+	return true
+}
+
+// isSemiPrivateAlloc: like isPrivateAlloc, but closures binding the variable may be handed out (go, arguments,
+// stores): the variable is private until such a closure has been created.
+func (fg *FnGen) isSemiPrivateAlloc(a *ssa.Alloc) bool {
+	if fg.semiPrivOf == nil {
+		fg.semiPrivOf = map[*ssa.Alloc]bool{}
+	}
+	if v, ok := fg.semiPrivOf[a]; ok {
+		return v
+	}
+	var addrOK func(v ssa.Value, depth int) bool
+	addrOK = func(v ssa.Value, depth int) bool {
+		if depth > 4 || v.Referrers() == nil {
+			return false
+		}
+		for _, r := range *v.Referrers() {
+			switch x := r.(type) {
+			case *ssa.UnOp, *ssa.DebugRef, *ssa.MakeClosure:
+			case *ssa.Store:
+				if x.Val == v {
+					return false
+				}
+			case *ssa.FieldAddr:
+				if !addrOK(x, depth+1) {
+					return false
+				}
+			case *ssa.IndexAddr:
+				if !addrOK(x, depth+1) {
+					return false
+				}
+			default:
+				return false
+			}
+		}
+		return true
+	}
+	T := derefType(a.Type())
+	res := false
+	if _, isArr := types.Unalias(T).Underlying().(*types.Array); !isArr && a.Referrers() != nil {
+		for _, r := range *a.Referrers() {
+			if _, ok := r.(*ssa.MakeClosure); ok {
+				res = true
+			}
+		}
+		res = res && addrOK(a, 0)
+	}
+	fg.semiPrivOf[a] = res
+	return res
 }
 
 // isPrivateAlloc: the address is used only for loads, stores, field/index addressing, and as a
